@@ -27,10 +27,20 @@ def _alarm(signum, frame):
 
 
 def horizon(seconds: float = 2.0):
-    signal.setitimer(signal.ITIMER_REAL, seconds)
+    """Arm the per-operation horizon.
+
+    Short horizons count the process's own CPU time (ITIMER_PROF): a non-terminating loop burns CPU, while a
+    process that is merely descheduled on a loaded machine does not - a wall-clock horizon raised spurious HANG
+    outcomes when several checks ran at once.  Long values (>= 100 s) re-arm the wall-clock shard watchdog."""
+    if seconds >= 100:
+        signal.setitimer(signal.ITIMER_PROF, 0)
+        signal.setitimer(signal.ITIMER_REAL, seconds)
+    else:
+        signal.setitimer(signal.ITIMER_PROF, seconds)
 
 
 def horizon_off():
+    signal.setitimer(signal.ITIMER_PROF, 0)
     signal.setitimer(signal.ITIMER_REAL, 0)
 
 
@@ -67,6 +77,7 @@ def init(repo: str, so_path: str | None, config: dict) -> None:
         assert backend == "pendulum._helpers", backend
         assert pendulum.parsing.parse_iso8601.__module__ == "pendulum.parsing.iso8601"
     signal.signal(signal.SIGALRM, _alarm)
+    signal.signal(signal.SIGPROF, _alarm)
     CTX.clear()
     CTX.update(repo=repo, so=so_path, config=dict(config), tzpath=tzp)
 
